@@ -421,6 +421,23 @@ impl System for Sys {
             };
         }
         let out;
+        // The stored state keeps priorities as ranks (2, 4, 6, …).  For every action that does not create a
+        // node the live priorities are first stretched so that the lowest level is 0 and the highest is
+        // u32::MAX (order and ties preserved): "every assignment of priorities" includes the extreme values.
+        if !matches!(a, Act::New(..) | Act::InsertAt(..) | Act::Start) {
+            let lv = Self::levels(s);
+            if let (Some(&lo), Some(&hi)) = (lv.first(), lv.last()) {
+                for t in s.slots.iter_mut() {
+                    for_each_node_mut(&mut t.root, &mut |n| {
+                        if n.priority == hi {
+                            n.priority = u32::MAX;
+                        } else if n.priority == lo {
+                            n.priority = 0;
+                        }
+                    });
+                }
+            }
+        }
         match *a {
             Act::Start => return Err("constructor inside a history".into()),
             Act::New(pc, val) => {
@@ -1033,6 +1050,10 @@ fn main() {
     run.cov("exhaustive", exhaustive && !run.has_violations());
     if !run.has_violations() && (states < 5000 || outcomes < 20) {
         run.machinery_failure("exploration implausibly small");
+    }
+    if mode == Mode::C03 && std::env::var("VCORE_CHILD").is_err() {
+        // the same exploration in a build with debug assertions and overflow checks
+        run.run_dbg_child();
     }
     run.finish(&confirm)
 }
